@@ -333,7 +333,14 @@ func (s *state) Enqueue(task *Task) (nwait int) {
 	}
 	for _, task := range task.Phase() {
 		switch task.State() {
-		case TaskOk, TaskErr:
+		case TaskOk:
+		case TaskErr:
+			// A failed task never satisfies its dependents: record the
+			// error (so that evaluation stops) and keep waiting on it.
+			if s.err == nil {
+				s.err = errors.E(fmt.Sprintf("error running %s", task.Name), task.Err())
+			}
+			nwait++
 		case TaskWaiting, TaskRunning:
 			s.schedule(task)
 			nwait++
